@@ -896,6 +896,12 @@ func (x *Exec) runLoop(ls *loopSpec, st *State) flow {
 			if ls.post != nil {
 				b = ls.post(b)
 			}
+			if b != nil && fr.top && (len(invs) > 0 || len(decs) > 0) {
+				// the obligations at the back edge (invariant kept, measure decreased) mean nothing if no execution reaches it
+				x.st = b
+				x.vacuity(fmt.Sprintf("vacuity:loop%d.back", ls.ord), ls.node.Pos(), "some execution completes an iteration of the loop")
+				x.obls[len(x.obls)-1].PrePC = append([]string(nil), pre.pc...)
+			}
 			if b != nil {
 				x.st = b
 				for k, cl := range invs {
